@@ -139,7 +139,7 @@ def _options(case):
         o['edge'] = _pick(rng, ['left', 'right', 'bottom', 'top', 'left', 'right', 'bottom', 'top', 'bl', 'br', 'tl', 'tr'])
         if len(o['edge']) == 2:
             o['sizes'] = [1]                      # one source in a corner (two borders at once)
-        o['kind'] = _pick(rng, GAUSS_FIXED + ['imagepsf'])
+        o['kind'] = _pick(rng, GAUSS_FIXED + ['imagepsf', 'gridded'])
     elif cls == 'masked':
         o['sizes'] = nsrc_sizes()
         o['mask'] = _pick(rng, ['random', 'random', 'centre'])
@@ -286,6 +286,17 @@ def _generic_axes(rng, cls, o):
     o['argform'] = 'plain' if rng.random() < 0.5 else _pick(rng, ['list', 'array', 'npint', 'scalar_if_square'])
     # (iv) shape
     o['elongated'] = None if rng.random() < 0.8 else _pick(rng, ['wide', 'tall'])
+    # second list (tools/generic_axes2.txt)
+    # (ix) exact integer / half-integer coordinates: true positions on pixel centres / corners, initial positions
+    # exactly on a pixel centre (k) or a pixel boundary (k + 0.5)
+    o['snap_truth'] = bool(rng.random() < 0.15) and not o['edge']
+    o['init_exact'] = None if (rng.random() < 0.8 or o['fixed'] or o.get('int_columns') or o['finder']
+                               or o.get('exact_clusters')) else _pick(rng, ['integer', 'half'])
+    # (x) provenance: model copied / evaluated before, init table a slice of a larger table
+    o['provenance'] = None if rng.random() < 0.75 else _pick(rng, ['model_used_before', 'table_slice', 'both'])
+    # (xi) an all-False mask owned by the caller
+    if plain_cls and o['mask'] is None and rng.random() < 0.08:
+        o['mask'] = 'all_false'
 
 
 def _lay(a, layout):
@@ -409,6 +420,11 @@ def _build_scene(case, o):
                 shape = (shape[0], int(round(xy[edge_src, 0] + 1 + delta)))
             else:
                 shape = (int(round(xy[edge_src, 1] + 1 + delta)), shape[1])
+    if o.get('snap_truth'):
+        for i in range(n):
+            for a in (0, 1):
+                if rng.random() < 0.6:
+                    xy[i, a] = np.floor(xy[i, a]) + float(_pick(rng, [0.0, 0.5]))
     model, info = G.build_model(rng, o['kind'], fwhm, shape)
     # input order
     if o['order'] == 'sorted':
@@ -461,6 +477,10 @@ def _init_table(case, s, o):
         xi[exact] = np.asarray(s.truth['x'])[exact]
         yi[exact] = np.asarray(s.truth['y'])[exact]
         fi[exact] = np.asarray(s.truth['flux'])[exact]
+    if o.get('init_exact') == 'integer':
+        xi, yi = np.round(np.asarray(s.truth['x'])), np.round(np.asarray(s.truth['y']))
+    elif o.get('init_exact') == 'half':
+        xi, yi = np.floor(np.asarray(s.truth['x'])) + 0.5, np.floor(np.asarray(s.truth['y'])) + 0.5
     if o['fixed'] in ('xy', 'x'):
         xi = np.asarray(s.truth['x']).copy()
     if o['fixed'] in ('xy', 'y'):
@@ -553,6 +573,8 @@ def _make_mask_and_garbage(case, s, o, xi, yi, nfree):
         mask[np.ix_(rows, cols)] = sub
         data[mask] = scale * 1e3
         s.starved = i
+    elif o['mask'] == 'all_false':
+        mask = np.zeros(s.shape, bool)
     elif o['mask'] == 'elsewhere':
         mask = np.zeros(s.shape, bool)
         mask[0, 0] = True
@@ -622,6 +644,17 @@ def run_case(case):
     s = _build_scene(case, o)
     n, fs = s.n, o['fit_shape']
     model = s.model
+    if o.get('provenance') in ('model_used_before', 'both'):
+        # a model with a history: evaluated at a few positions (fills the per-position caches of the gridded
+        # model), parameters edited and restored, then a copy of it is handed to the photometry object
+        keep = [float(getattr(model, q).value) for q in G.pnames(model)]
+        for _ in range(3):
+            G.set_xyf(model, float(rng.uniform(0, s.shape[1])), float(rng.uniform(0, s.shape[0])), 7.0)
+            _ = model(np.arange(4.0) + 3, np.arange(4.0) + 2)
+        G.set_xyf(model, *keep)
+        model = model.copy()
+        _ = model(np.arange(3.0), np.arange(3.0))
+        case.note('axis2_provenance_model_used_before')
     if o['fixed']:
         model = model.copy()
         xn, yn, fn = G.pnames(model)
@@ -839,6 +872,25 @@ def run_case(case):
     finder = None
     aper_r = None
     call_init = init
+    if o.get('provenance') in ('table_slice', 'both') and not o['finder']:
+        # the init table is a slice (view) of a larger table with unrelated rows before and after
+        from astropy.table import vstack
+        head, tail = init[:1].copy(), init[-1:].copy()
+        for junk in (head, tail):
+            for c in junk.colnames:
+                if junk[c].dtype.kind == 'f':
+                    junk[c] = junk[c] * 0 - 77.0
+        big = vstack([head, head, init, tail])
+        call_init = big[2:2 + n]
+        case.note('axis2_provenance_init_table_is_slice')
+    for key, val in (('axis2_truth_on_pixel_centre_or_corner', o.get('snap_truth')),
+                     ('axis2_init_exact_' + str(o.get('init_exact')), o.get('init_exact')),
+                     ('axis2_mask_all_false', o['mask'] == 'all_false'),
+                     ('axis2_border_' + str(o['edge']), o['edge']),
+                     ('axis2_unequal_oversampling', len(set(s.info.get('oversampling', [1, 1]))) > 1),
+                     ('axis2_even_epsf_size', any(s.info.get('even', [False])))):
+        if val:
+            case.note(key)
     if o['finder']:
         from photutils.detection import DAOStarFinder
         finder = DAOStarFinder(threshold=0.02 * float(np.min(np.abs(s.peaks))), fwhm=s.fwhm)
@@ -1197,7 +1249,7 @@ def run_case(case):
 
     s.undecided = bool(undecided)
     # qfit / cfit from their documented definitions (meaningful only when residuals are not round-off)
-    if o['perturbed'] and grp_ok:
+    if o['perturbed'] and grp_ok and not amb.any():
         _check_metrics(case, p, tbl, s, o, model, data, mask, error, facts, R, fitgroup, mech)
 
     # ======================================================================================
